@@ -3,8 +3,8 @@ from .. import bbigen, bedgen68
 
 class C08(Prop):
     ID = "C08"
-    THEOREMS = ["C08_sweep_eq_rle_depth", "C08_ordered_disjoint", "C08_len_le_res", "C08_partition", "C08_stats",
-                "C08_tiling_terminates", "C08_levels_increasing", "C08_zoom_query_partial"]
+    THEOREMS = ["C08_sweep_eq_rle_depth", "C08_accepted_valid", "C08_ordered_disjoint", "C08_len_le_res", "C08_partition", "C08_stats",
+                "C08_tiling_terminates", "C08_levels_increasing", "C08_file_levels", "C08_zoom_query_partial"]
     RULE = ("bigBed cases: 1-6 chromosomes, per chromosome a start-sorted BED layout from the grammar disjoint/partly overlapping/"
             "nested/identical/zero-length/very-long-then-short/dense/gaps of every size relative to the first resolution "
             "(0, 1, r-1, r, r+1, 2r, 3r+1), options compress x items_per_slot{1,2,3,7,1024} x zoom lists (automatic; small automatic; "
@@ -21,7 +21,7 @@ class C08(Prop):
     PER_CASE_TIMEOUT = 30.0
 
     def gen(self, rng, tier):
-        n = 3000 if tier == "quick" else 30000
+        n = 2000 if tier == "quick" else 30000
         for i in range(n):
             yield bedgen68.bb_case(rng, tier, zoom_mode=rng.choice(["manual", "manual", "auto-small", "auto-small", "auto", "manual-odd"]),
                                    invalid=(i % 25 == 24))
